@@ -75,10 +75,10 @@ Section WithSerialize.
 
   (* pydantic serialisation of one field value, directed by the field's annotation, which
      input_fields.parse_input_field_type builds from the declared type: Optional[...] is emitted where
-     its [nullable] flag is true, and a list hands ITS OWN flag down to its items (F21), so the items of
-     a non-null list lose their Optional.  [nl] is that flag.  None at a position whose annotation has
-     no Optional: only a custom scalar annotated Any lets it through validation, and then its
-     PlainSerializer is called on None. *)
+     its [nullable] flag is true; NonNull clears the flag, list items start nullable again (since /repo
+     1ef155d; before, a list handed ITS OWN flag down to its items, finding F21).  [nl] is that flag.
+     None at a position whose annotation has no Optional: only a custom scalar annotated Any lets it
+     through validation, and then its PlainSerializer is called on None. *)
   Definition type_is_any (c : option scalar_cfg) : bool :=
     match c with None => true | Some c' => String.eqb (object_name (sc_type c')) "Any" end.
 
@@ -101,7 +101,7 @@ Section WithSerialize.
         | TList t' =>
             match v with
             | PNone => dump_none S nl t
-            | PList l => option_map JArr (map_opt (dump_field n' S snake t' nl) l)
+            | PList l => option_map JArr (map_opt (dump_field n' S snake t' true) l)
             | _ => None
             end
         | TNamed nm =>
@@ -134,7 +134,7 @@ Section WithSerialize.
         | TList t' =>
             match v with
             | PNone => nl
-            | PList l => forallb (constructible n' S snake t' nl) l
+            | PList l => forallb (constructible n' S snake t' true) l
             | _ => false
             end
         | TNamed nm =>
@@ -414,7 +414,8 @@ Section WithSerialize.
                       | _ => true end) S &&
     nodup_str (map fst S).
 
-  (* F21: a non-null list whose items are nullable, anywhere in an input field type *)
+  (* F21 shape: a non-null list whose items are nullable.  Fixed for input fields by /repo 1ef155d; the
+     predicate is kept because method SIGNATURES (arguments.py _parse_type_node) still have it (type hint) *)
   Fixpoint ok_ty (nl : bool) (t : gtype) : bool :=
     match t with
     | TNamed _ => true
